@@ -1,7 +1,7 @@
 (* Property C06: frontend-side parsers accept only the matching reply.
    Statements only, over the hand model of the frontend receive paths. *)
 From VV Require Import Base.Bits Base.Rt Base.Val Gen.GenConsts Gen.GenLayout Gen.GenFns
-  Model.Transport Model.Frontend Proofs.FeProofs.
+  Model.Transport Model.Frontend Model.Proxy Proofs.FeProofs Proofs.ProxyProofs.
 Open Scope N_scope.
 
 (* recv_reply: success implies that the consumed bytes are a header-valid REPLY with the request's
@@ -44,3 +44,24 @@ Theorem C06_is_reply_for : forall h req,
   /\ enum_mem RF (VhostUserMsgHeader_request h) = true.
 Proof. exact is_reply_for_spec. Qed.
 Print Assumptions C06_is_reply_for.
+
+(* the backend-to-frontend proxy accepts an acknowledgement only if it is a header-valid REPLY for
+   its own request, without descriptors, with a zero status *)
+Theorem C06_proxy_accept_sound : forall s req q,
+  px_reply_ack s = true -> px_wait s req q = VL [VS "ok"%string; VN 0] ->
+  exists bytes cl q',
+    recv_all (fuel_for q 20) 20 [] None [] q = RxAll bytes None cl q'
+    /\ List.length bytes = 20%nat
+    /\ let h := VhostUserMsgHeader_read bytes 0 in
+       VhostUserMsgHeader_is_valid RB h = true
+       /\ VhostUserMsgHeader_is_reply_for RB h req = true
+       /\ VhostUserU64_value (VhostUserU64_read bytes 12) = 0.
+Proof. exact px_wait_sound. Qed.
+Print Assumptions C06_proxy_accept_sound.
+
+(* the frontend's server for backend-initiated requests: one handler invocation at most per request *)
+Theorem C06_feserver_at_most_one : forall ra hr q,
+  (List.length (fo_calls (fst (fsrv_handle ra hr q))) <= 1)%nat
+  /\ (List.length (fo_sent (fst (fsrv_handle ra hr q))) <= 1)%nat.
+Proof. exact fsrv_at_most_one. Qed.
+Print Assumptions C06_feserver_at_most_one.
